@@ -15,7 +15,8 @@
 
    The model is of the tree WITH the fixes for F01 (list re-synchronised with
    the store on every exit of handleHeadersMsg), F02 (checkpoint floor taken
-   at tip height + 1) and F14 (in-memory filter tip lowered by rollbacks). *)
+   at tip height + 1), F14 (in-memory filter tip lowered by rollbacks) and
+   F17 (a reorg branch contradicting a checkpoint is rejected outright). *)
 From stdpp Require Import list.
 From Coq Require Import ZArith Lia.
 Open Scope Z_scope.
@@ -277,13 +278,17 @@ Definition headers_connected (hs : list header) : bool :=
 Record acc := { a_s : state; a_batch : list (header * Z); a_recvcp : bool; a_finalh : Z }.
 Inductive outcome := Return (s : state) | Continue (a : acc) | Break (a : acc).
 
+(* matchesHeaderCheckpoint (F17 fix): no checkpoint at this height, or the same hash *)
+Definition cp_matches (P : params) (h : Z) (x : header) : bool :=
+  forallb (fun cp => negb (cp.1 =? h) || (cp.2 =? hid x)) (checkpoints P).
+
 (* sanity of a reorg branch through the scratch list; returns its total work *)
 Fixpoint reorg_check (P : params) (now : Z) (c : list header) (rl : list node) (prevh : Z) (prevhdr : header)
          (hs : list header) (work : Z) : option Z :=
   match hs with
   | [] => Some work
   | x :: t =>
-    if is_ok (check_sanity P (view rl c) now x prevh prevhdr)
+    if is_ok (check_sanity P (view rl c) now x prevh prevhdr) && cp_matches P (prevh + 1) x
     then reorg_check P now c (win_push (memCap P) rl {| nheight := prevh + 1; nhdr := x |})
                      (prevh + 1) x t (work + calcWork (hbits x))
     else None
